@@ -1,7 +1,7 @@
 (* Proofs about Model/AttemptCtx.v (property C14: the deadline of ONE ATTEMPT of a retried call
-   reaches the call primitive) and the tie to the source: Gen/GenCtxSites.ctx_sites. *)
+   reaches the call primitive) and the tie to the source: Gen/GenCtxFlow.ctxflow_sites. *)
 From Coq Require Import ZArith List Bool Lia ZifyBool.
-From Verif Require Import Base.Wrap Base.Wire Gen.GenConsts Gen.GenTTL Gen.GenCtxSites Spec.CtxSitesSpec
+From Verif Require Import Base.Wrap Base.Wire Gen.GenConsts Gen.GenTTL Gen.GenCtxFlow Spec.CtxFlowSpec
   Model.Messages Model.TTL Model.AttemptCtx Proofs.TTLP.
 Import ListNotations.
 Local Open Scope Z_scope.
@@ -11,44 +11,44 @@ Local Open Scope Z_scope.
 (* Channel.RunWithRetry hands the attempt function the caller's context when TimeoutPerAttempt
    is 0 and context.WithTimeout(runCtx, opts.TimeoutPerAttempt) otherwise: the rows of the core
    package are exactly the rows [attempt_ctx] was written against. *)
-Lemma core_rows_generated : rows_of_fn pkg_root fn_run_with_retry ctx_sites = core_ctx_rows.
+Lemma core_rows_generated : rows_of_fn pkg_root fn_run_with_retry ctxflow_sites = core_ctx_rows.
 Proof.
   first [ vm_compute; reflexivity
-        | fail 1 "Channel.RunWithRetry no longer hands its attempt function runCtx (TimeoutPerAttempt == 0) / context.WithTimeout(runCtx, opts.TimeoutPerAttempt) (otherwise): the context rows regenerated from retry.go (Gen/GenCtxSites.ctx_sites, package .) differ from Spec/CtxSitesSpec.core_ctx_rows" ].
+        | fail 1 "Channel.RunWithRetry no longer hands its attempt function runCtx (TimeoutPerAttempt == 0) / context.WithTimeout(runCtx, opts.TimeoutPerAttempt) (otherwise): the context rows regenerated from retry.go (Gen/GenCtxFlow.ctxflow_sites, package .) differ from Spec/CtxFlowSpec.core_ctx_rows" ].
 Qed.
 
 (* every hand-over of a context below RunWithRetry -- in the attempt functions of every package
    of the module and in the functions they call -- passes on the function's own context
    parameter or a context derived from it *)
-Lemma ctx_discipline_generated : forallb row_forwards ctx_sites = true.
+Lemma ctx_discipline_generated : forallb row_forwards ctxflow_sites = true.
 Proof.
   first [ vm_compute; reflexivity
-        | fail 1 "a function below Channel.RunWithRetry hands a call primitive a context that is NOT its own context parameter (origin 2 = the enclosing function's context captured by the attempt function, 3 = some other context): see the rows of Gen/GenCtxSites.ctx_sites with origin 2 or 3 -- the per-attempt deadline (RetryOptions.TimeoutPerAttempt) is dropped on this hop" ].
+        | fail 1 "a function below Channel.RunWithRetry hands a call primitive a context that is NOT its own context parameter (origin 2 = the enclosing function's context captured by the attempt function, 3 = some other context): see the rows of Gen/GenCtxFlow.ctxflow_sites with origin 2 or 3 -- the per-attempt deadline (RetryOptions.TimeoutPerAttempt) is dropped on this hop" ].
 Qed.
 
 (* inside the core package the context given to BeginCall is handed down, step by step, to the
    message exchange of the call (Channel / SubChannel.BeginCall -> Peer.BeginCall ->
    Connection.beginCall -> outbound.newExchange) *)
-Lemma core_path_generated : forallb (path_step_present ctx_sites) core_call_path = true.
+Lemma core_path_generated : forallb (path_step_present ctxflow_sites) core_call_path = true.
 Proof.
   first [ vm_compute; reflexivity
-        | fail 1 "the path of an outbound call inside the core package no longer hands its context parameter down: one of Channel.BeginCall -> p.BeginCall, SubChannel.BeginCall -> peer.BeginCall, Peer.BeginCall -> conn.beginCall, Connection.beginCall -> c.outbound.newExchange is missing from Gen/GenCtxSites.ctx_sites or has origin 2 / 3" ].
+        | fail 1 "the path of an outbound call inside the core package no longer hands its context parameter down: one of Channel.BeginCall -> p.BeginCall, SubChannel.BeginCall -> peer.BeginCall, Peer.BeginCall -> conn.beginCall, Connection.beginCall -> c.outbound.newExchange is missing from Gen/GenCtxFlow.ctxflow_sites or has origin 2 / 3" ].
 Qed.
 
 (* every attempt function handed to RunWithRetry does hand a context on, its package reaches a
    BeginCall, and the clients the model knows are among them *)
 Lemma ctx_coverage_generated :
-  forallb (attempt_fn_covered ctx_sites) retry_attempt_fns = true /\
-  forallb (fun pf => reaches_begin (fst pf) ctx_sites) retry_attempt_fns = true /\
+  forallb (attempt_fn_covered ctxflow_sites) retry_attempt_fns = true /\
+  forallb (fun pf => reaches_begin (fst pf) ctxflow_sites) retry_attempt_fns = true /\
   forallb (fun k => existsb (fun pf => lz_eqb (fst pf) (fst k) && lz_eqb (snd pf) (snd k)) retry_attempt_fns) known_attempt_fns = true /\
-  forallb (fun p => existsb (fun pf => lz_eqb (fst pf) p) retry_attempt_fns) (client_pkgs ctx_sites) = true.
+  forallb (fun p => existsb (fun pf => lz_eqb (fst pf) p) retry_attempt_fns) (client_pkgs ctxflow_sites) = true.
 Proof.
   first [ vm_compute; repeat split; reflexivity
-        | fail 1 "the attempt functions handed to Channel.RunWithRetry (Gen/GenCtxSites.retry_attempt_fns) and the context rows below them do not cover each other: an attempt function hands no context on, never reaches a BeginCall, or the thrift / json client no longer calls RunWithRetry with a function literal" ].
+        | fail 1 "the attempt functions handed to Channel.RunWithRetry (Gen/GenCtxFlow.retry_attempt_fns) and the context rows below them do not cover each other: an attempt function hands no context on, never reaches a BeginCall, or the thrift / json client no longer calls RunWithRetry with a function literal" ].
 Qed.
 
 (* the source of the context BeginCall receives in package [pkg], read off the generated rows *)
-Definition gen_client_src (pkg : list Z) : ctx_src := path_src (map cr_origin (rows_of pkg ctx_sites)).
+Definition gen_client_src (pkg : list Z) : ctx_src := path_src (map cr_origin (rows_of pkg ctxflow_sites)).
 
 Lemma path_src_attempt os : forallb (fun o => (o =? 0) || (o =? 1)) os = true -> path_src os = SrcAttempt.
 Proof.
